@@ -95,7 +95,9 @@ class PathEnumerator:
                  exc_parents=None, assert_forks=False, record_conds=True):
         self.fn = fn
         self.on_stmt = on_stmt or (lambda s, st: ())
-        self.fallible = fallible or (lambda s: ())
+        self._try_stack = []
+        # without a rule-specific oracle, any statement in a try body may raise what the handlers name
+        self.fallible = fallible or self._implicit_fallible
         self.eval_test_cb = eval_test
         self.unroll = unroll
         self.max_states = max_states
@@ -105,6 +107,21 @@ class PathEnumerator:
         self.assert_forks = assert_forks
         self.record_conds = record_conds
         self.nstates = 0
+
+    def _implicit_fallible(self, s):
+        names = []
+        for tr in self._try_stack:
+            for h in tr.handlers:
+                if h.type is None:
+                    names.append('*')
+                else:
+                    for t in (h.type.elts if isinstance(h.type, ast.Tuple) else [h.type]):
+                        names.append((dotted(t) or src(t)).rsplit('.', 1)[-1])
+        if not names:
+            return ()
+        if not any(isinstance(n, (ast.Call, ast.Attribute, ast.Subscript, ast.BinOp, ast.Await)) for n in ast.walk(s)):
+            return ()  # plain name/constant moves cannot raise
+        return tuple(dict.fromkeys(names))
 
     # -- public --------------------------------------------------------------
 
@@ -470,7 +487,12 @@ class PathEnumerator:
     def do_Try(self, s, st):
         outs = []
         after_body = []
-        for kind, o in self.block(s.body, st.add(Event('try', s))):
+        self._try_stack.append(s)
+        try:
+            body_outs = self.block(s.body, st.add(Event('try', s)))
+        finally:
+            self._try_stack.pop()
+        for kind, o in body_outs:
             if kind == 'raise':
                 after_body.extend(self._dispatch(s, o))
             elif kind == 'next':
